@@ -219,10 +219,13 @@ class Term:
     """
 
     def __init__(self, *components):
+        # Every term owns its components. The operators build several terms out of the components
+        # of their operands ('f/g' is 'f + f:g') and the same factor can need a different encoding
+        # in each of them.
         self.components = []
         for component in components:
             if component not in self.components:
-                self.components.append(component)
+                self.components.append(deepcopy(component))
         self.data = None
         self.kind = None
         self.name = ":".join([str(component.name) for component in self.components])
